@@ -178,3 +178,13 @@ Print Assumptions C01_accessors.
 Print Assumptions C01_recv.
 Print Assumptions C01_stream.
 Print Assumptions C01_no_crlf_inside.
+
+(* generated-code tie *)
+(* Gen/GoFuncs.v holds the Gallina TRANSLATION of the Go body of parseUserHost, regenerated
+   from the source on every run (translator/go2coq.go); its four results (nick, ident, host,
+   ok) are the model's option, for every input, panics included (Proofs/GenEqLine.v). *)
+From Verif Require Import GoFuncs GenEqLine.
+Theorem gen_C01_parseUserHost : forall uh,
+  go_client_parseUserHost uh = (r <- parse_user_host uh ;; Ok (user_host_results r)).
+Proof. exact go_parseUserHost_eq. Qed.
+Print Assumptions gen_C01_parseUserHost.
